@@ -868,6 +868,16 @@ func SubstituteParameters(layout Layout,
 
 	replacer := strings.NewReplacer(parameters...)
 
+	// The passed layout shares its steps and inspections with the layout of
+	// the caller, which must stay as it is. Parameters are substituted in
+	// copies.
+	if layout.Steps != nil {
+		layout.Steps = append(make([]Step, 0, len(layout.Steps)), layout.Steps...)
+	}
+	if layout.Inspect != nil {
+		layout.Inspect = append(make([]Inspection, 0, len(layout.Inspect)), layout.Inspect...)
+	}
+
 	for i := range layout.Steps {
 		layout.Steps[i].ExpectedMaterials = substituteParametersInSliceOfSlices(
 			replacer, layout.Steps[i].ExpectedMaterials)
